@@ -281,6 +281,10 @@ def run(ctx):
                    'Semaphore::new(%s) vs max_size: %s' % (permits, mx), construct='init-permits', sites=[permits, mx])
             ctx.ob('R01.8', 'size starts at 0', sz == '0_usize', ctx.where(fb, slots_agg[0].line), 'size: %s' % sz, construct='init-size')
 
+    # ---- R01.9 conservation on every path (effect ledger, dprules/ledger.py) ---------------------------------
+    from .ledger_rules import ledger_obligations
+    ledger_obligations(ctx, r, 'R01.9', (0, 1))
+
     ctx.not_decided += [
         "tokio's Semaphore never grants more permits than it holds (trusted base)",
         'the numeric invariant |live objects| <= max_size over all interleavings (a model-checking statement); decided '
